@@ -4,7 +4,9 @@ search `loc` returns exactly what the split-free search `find` returns on the fi
 located pieces under later refinement and from any search start follows.  Shared by C03, C05, C06, C07.
 
 Times form an arbitrary linear order, `c.lt`/`c.eq` are its `<`/`=`, `rnd` is an arbitrary idempotent map; values are
-completely abstract.  Non-dyadic mode (`halfway = false`) throughout this file.
+completely abstract.  Both tree modes: for `halfway_tree=True` the only extra assumption is `Sound.mid_inside` (the
+rounded mid point of an interval that contains a resolved time strictly inside lies strictly inside: true of the decimal
+grid `round(x, ndigits)`, where such an interval is at least two grid steps long).
 -/
 import Tsv.Model.Brownian
 import Mathlib.Order.Defs.LinearOrder
@@ -22,11 +24,13 @@ structure Sound (c : Cfg T) : Prop where
   lt : ∀ a b, c.lt a b = decide (a < b)
   eq : ∀ a b, c.eq a b = decide (a = b)
   rnd_idem : ∀ x, c.rnd (c.rnd x) = c.rnd x
-  nohalf : c.halfway = false
+  rnd_mono : ∀ a b, a ≤ b → c.rnd a ≤ c.rnd b
+  mid_inside : c.halfway = true → ∀ s e x, s < x → x < e → c.rnd x = x →
+    s < c.rnd (c.half s e) ∧ c.rnd (c.half s e) < e
 
 /-- children partition the parent, strictly; every mid point is a resolved (rounded) time -/
 def WF (c : Cfg T) : Tree T → Prop
-  | Tree.leaf s e => s < e
+  | Tree.leaf s e => s < e ∧ c.rnd s = s ∧ c.rnd e = e
   | Tree.node s e m l r => s < m ∧ m < e ∧ c.rnd m = m ∧ l.s = s ∧ l.e = m ∧ r.s = m ∧ r.e = e ∧ WF c l ∧ WF c r
 
 /-- `t'` is `t` with some leaves replaced by subtrees over the same interval -/
@@ -110,10 +114,47 @@ theorem find_refines : ∀ {t t' : Tree T} {ta tb : T} {ps}, find t ta tb = some
 
 variable {c : Cfg T}
 
-theorem split_spec (hc : Sound c) (fuel : Nat) (s e x : T) (hx : c.rnd x = x) {t' d}
-    (h : split c fuel s e x = some (t', d)) : t' = Tree.node s e x (Tree.leaf s x) (Tree.leaf x e) := by
-  simp only [split, hc.nohalf, Bool.false_eq_true, if_false, Option.some.injEq, Prod.mk.injEq] at h
-  rw [← h.1, splitExact, hx]
+theorem splitHalf_wf (hc : Sound c) (hh : c.halfway = true) : ∀ (fuel : Nat) (s e x : T) {t' d},
+    splitHalf c fuel s e x = some (t', d) → s < x → x < e → c.rnd x = x → c.rnd s = s → c.rnd e = e →
+    WF c t' ∧ t'.s = s ∧ t'.e = e
+  | 0, _, _, _, _, _, h, _, _, _, _, _ => by simp [splitHalf] at h
+  | fuel + 1, s, e, x, t', d, h, h1, h2, hx, hs, he => by
+      obtain ⟨m1, m2⟩ := hc.mid_inside hh s e x h1 h2 hx
+      have hm := hc.rnd_idem (c.half s e)
+      simp only [splitHalf, hc.lt, decide_eq_true_eq] at h
+      split at h
+      · rename_i hlt
+        split at h
+        · simp at h
+        · rename_i r dr hr
+          simp only [Option.some.injEq, Prod.mk.injEq] at h
+          obtain ⟨rfl, _⟩ := h
+          obtain ⟨w, b1, b2⟩ := splitHalf_wf hc hh fuel _ e x hr hlt h2 hx hm he
+          exact ⟨⟨m1, m2, hm, rfl, rfl, b1, b2, ⟨m1, hs, hm⟩, w⟩, rfl, rfl⟩
+      · split at h
+        · rename_i hgt
+          split at h
+          · simp at h
+          · rename_i l dl hl
+            simp only [Option.some.injEq, Prod.mk.injEq] at h
+            obtain ⟨rfl, _⟩ := h
+            obtain ⟨w, b1, b2⟩ := splitHalf_wf hc hh fuel s _ x hl h1 hgt hx hs hm
+            exact ⟨⟨m1, m2, hm, b1, b2, rfl, rfl, w, ⟨m2, hm, he⟩⟩, rfl, rfl⟩
+        · simp only [Option.some.injEq, Prod.mk.injEq] at h
+          obtain ⟨rfl, _⟩ := h
+          exact ⟨⟨m1, m2, hm, rfl, rfl, rfl, rfl, ⟨m1, hs, hm⟩, ⟨m2, hm, he⟩⟩, rfl, rfl⟩
+
+/-- `_split(x)` of a leaf at a resolved time strictly inside it gives a well-formed subtree over the same interval -/
+theorem split_wf (hc : Sound c) (fuel : Nat) (s e x : T) {t' d} (h : split c fuel s e x = some (t', d))
+    (h1 : s < x) (h2 : x < e) (hx : c.rnd x = x) (hs : c.rnd s = s) (he : c.rnd e = e) :
+    WF c t' ∧ t'.s = s ∧ t'.e = e := by
+  unfold split at h
+  split at h
+  · rename_i hh; exact splitHalf_wf hc hh fuel s e x h h1 h2 hx hs he
+  · simp only [Option.some.injEq, Prod.mk.injEq] at h
+    obtain ⟨rfl, _⟩ := h
+    simp only [splitExact, hx]
+    exact ⟨⟨h1, h2, hx, rfl, rfl, rfl, rfl, ⟨h1, hs, hx⟩, ⟨h2, hx, he⟩⟩, rfl, rfl⟩
 
 /-- `locDown` only refines, keeps strict well-formedness, and returns what `find` finds afterwards -/
 theorem locDown_spec (hc : Sound c) : ∀ (fuel : Nat) (t : Tree T) (ta tb : T) {t' ps d},
@@ -144,24 +185,19 @@ theorem locDown_spec (hc : Sound c) : ∀ (fuel : Nat) (t : Tree T) (ta tb : T) 
               simp only [Option.some.injEq, Prod.mk.injEq] at h
               obtain ⟨rfl, rfl, _⟩ := h
               -- the split point is strictly inside
-              have hwf' : s < e := hwf
+              obtain ⟨hwf', hrs0, hre0⟩ := hwf
               by_cases hta : ta = s
               · subst hta
                 have htbe : tb ≠ e := fun h' => hm ⟨rfl, h'⟩
-                have hx := split_spec hc fuel ta e tb hrb (by simpa using hsplit)
-                subst hx
-                have hwf1 : WF c (Tree.node ta e tb (Tree.leaf ta tb) (Tree.leaf tb e)) :=
-                  ⟨hlt, lt_of_le_of_ne he htbe, hrb, rfl, rfl, rfl, rfl, hlt, lt_of_le_of_ne he htbe⟩
-                obtain ⟨r1, w1, f1⟩ := locDown_spec hc fuel _ ta tb hrec hwf1 (le_refl _) he hlt hra hrb
-                exact ⟨⟨r1.bounds.1, r1.bounds.2⟩, w1, f1⟩
+                obtain ⟨w1, b1, b2⟩ := split_wf hc fuel ta e tb (by simpa using hsplit) hlt (lt_of_le_of_ne he htbe)
+                  hrb hrs0 hre0
+                obtain ⟨r1, w2, f1⟩ := locDown_spec hc fuel _ ta tb hrec w1 (le_of_eq b1) (b2 ▸ he) hlt hra hrb
+                exact ⟨⟨r1.bounds.1.trans b1, r1.bounds.2.trans b2⟩, w2, f1⟩
               · have hsa : s < ta := lt_of_le_of_ne hs (Ne.symm hta)
-                have hx := split_spec hc fuel s e ta hra (by simpa [hta] using hsplit)
-                subst hx
                 have hae : ta < e := lt_of_lt_of_le hlt he
-                have hwf1 : WF c (Tree.node s e ta (Tree.leaf s ta) (Tree.leaf ta e)) :=
-                  ⟨hsa, hae, hra, rfl, rfl, rfl, rfl, hsa, hae⟩
-                obtain ⟨r1, w1, f1⟩ := locDown_spec hc fuel _ ta tb hrec hwf1 hs he hlt hra hrb
-                exact ⟨⟨r1.bounds.1, r1.bounds.2⟩, w1, f1⟩
+                obtain ⟨w1, b1, b2⟩ := split_wf hc fuel s e ta (by simpa [hta] using hsplit) hsa hae hra hrs0 hre0
+                obtain ⟨r1, w2, f1⟩ := locDown_spec hc fuel _ ta tb hrec w1 (b1 ▸ hs) (b2 ▸ he) hlt hra hrb
+                exact ⟨⟨r1.bounds.1.trans b1, r1.bounds.2.trans b2⟩, w2, f1⟩
         | node s e m l r =>
           simp only [Tree.s, Tree.e] at hs he hm
           obtain ⟨hsm, hme, hrm, hls, hle, hrs, hre, hwl, hwr⟩ := hwf
@@ -206,6 +242,13 @@ theorem locDown_spec (hc : Sound c) : ∀ (fuel : Nat) (t : Tree T) (ta tb : T) 
                     ⟨hsm, hme, hrm, ra.bounds.1.trans hls, ra.bounds.2.trans hle, rb.bounds.1.trans hrs,
                       rb.bounds.2.trans hre, wa, wb⟩, ?_⟩
                   simp [find, hm, h1, h2, fa, fb]
+
+/-- node bounds are resolved times -/
+theorem wf_rnd : ∀ {t : Tree T}, WF c t → c.rnd t.s = t.s ∧ c.rnd t.e = t.e ∧ t.s < t.e
+  | Tree.leaf _ _, h => ⟨h.2.1, h.2.2, h.1⟩
+  | Tree.node _ _ _ l r, h => by
+      obtain ⟨hsm, hme, _, hls, _, _, hre, hwl, hwr⟩ := h
+      exact ⟨hls ▸ (wf_rnd hwl).1, hre ▸ (wf_rnd hwr).2.1, lt_trans hsm hme⟩
 
 /-! ### paths -/
 
